@@ -334,6 +334,10 @@ func setup(root string, sc *Scenario) error {
 		os.WriteFile(filepath.Join(outDir, base+".tmpl"), []byte("template kept next to the mock\n"), 0o644)
 		os.WriteFile(filepath.Join(outDir, base+".tmp.bak"), []byte("somebody's backup\n"), 0o644)
 	}
+	if sc.Place.Dangling {
+		os.MkdirAll(filepath.Join(root, "mocks", "gen"), 0o755)
+		os.MkdirAll(filepath.Join(root, "src", "gen"), 0o755)
+	}
 	if sc.Place.Symlink != "" {
 		link := filepath.Clean(filepath.Join(root, "src", sc.Place.Out))
 		if err := os.Symlink(sc.Place.Symlink, link); err != nil {
@@ -395,7 +399,7 @@ func (r *Runner) Run(sc *Scenario, id string) ([]Finding, *Stats, error) {
 		outReal = filepath.Clean(filepath.Join(filepath.Dir(outAbs), sc.Place.Symlink))
 	}
 	w := &world{prior: "absent", broken: sc.IncompleteMod, outReal: outReal, aliased: sc.StartAliased}
-	if sc.Place.Symlink != "" {
+	if sc.Place.Symlink != "" && !sc.Place.Dangling {
 		w.prior = "placeholder" // the link's target exists and is valid Go of the destination package
 	}
 	if sc.Place.Out == "../adir" {
@@ -430,6 +434,15 @@ func (r *Runner) Run(sc *Scenario, id string) ([]Finding, *Stats, error) {
 			pkg := sc.Place.Pkg
 			if pkg == "" {
 				pkg = "src"
+			}
+			if step.Damage == "readonly" {
+				// not damage to the bytes: the generated file is kept read-only (0444)
+				if err == nil {
+					os.Chmod(outAbs, 0o444)
+					w.touched = true
+					tr("step %d: -out made read-only (0444)", i)
+				}
+				continue
 			}
 			var content []byte
 			switch step.Damage {
